@@ -116,6 +116,21 @@ var AwkwardValues = []Awkward{
 	{"70000", func() any { return 70000 }},
 	{"[]any label", func() any { return []any{"AND", []any{}} }},
 	{"Stack holding Stack{}", func() any { return stackage.And().Push(stackage.Stack{}) }},
+	{"&(any)(nil)", func() any { var x any; return &x }},
+	{"&(error)(nil)", func() any { var e error; return &e }},
+	{"&any(AStack)", func() any { var x any = AStack(stackage.And().Push("in")); return &x }},
+	{"Cond holding func", func() any {
+		var c stackage.Condition
+		c.Init()
+		c.SetExpression(func() {})
+		return c
+	}},
+	{"Cond holding chan", func() any {
+		var c stackage.Condition
+		c.Init()
+		c.SetExpression(make(chan int))
+		return c
+	}},
 	{"reflect.Value{}", func() any { return reflect.Value{} }},
 	{"reflect.ValueOf(5)", func() any { return reflect.ValueOf(5) }},
 	{"SelfPtr(nil)", func() any { var p SelfPtr; return p }},
@@ -733,6 +748,19 @@ func c08RunElem(c *core.Ctx, n int) {
 			s.IsEqual(aw.New())
 			stackage.Cond("k", stackage.Eq, aw.New()).IsEqual(stackage.Cond("k", stackage.Eq, aw.New()))
 			stackage.Cond("k", stackage.Eq, "v").IsEqual(aw.New())
+			// slices / arrays of pointers against slices / arrays of the values pointed to; maps with a NaN key
+			one, two := 1, 2
+			pone := &one
+			sa, sb := "a", "b"
+			for _, pair := range [][2]any{{[]*int{&one, &two}, []int{1, 2}}, {[2]*int{&one, &two}, [2]int{1, 2}}, {[]**int{&pone}, []*int{&one}},
+				{[]*string{&sa, &sb}, []string{"a", "b"}}, {[]*int{&one, &two}, [2]string{"a", "b"}},
+				{map[float64]string{math.NaN(): "n", 1: "o"}, map[float64]string{math.NaN(): "n", 1: "o"}}, {map[any]any{math.NaN(): 1}, map[any]any{math.NaN(): 1}}} {
+				a, b := stackage.List().Push("x", pair[0]), stackage.List().Push("x", pair[1])
+				a.IsEqual(b)
+				b.IsEqual(a)
+				stackage.Cond("k", stackage.Eq, pair[0]).IsEqual(stackage.Cond("k", stackage.Eq, pair[1]))
+				stackage.Cond("k", stackage.Eq, pair[1]).IsEqual(stackage.Cond("k", stackage.Eq, pair[0]))
+			}
 			// maps of the same shape whose key types merely share a kind
 			for _, pair := range [][2]any{{map[string]int{"a": 1}, map[Name]int{"a": 1}}, {map[any]int{"a": 1}, map[fmt.Stringer]int{Name("a"): 1}},
 				{map[string]int{"a": 1}, map[string]int64{"a": 1}}, {map[int]string{1: "a"}, map[int64]string{1: "a"}}} {
